@@ -45,6 +45,8 @@ def stdlib_module(name):
 def run(ctx):
     repo, cg = ctx.repo, ctx.cg
     mods = [m for m in repo.rule_modules() if any(m.rel.startswith(s) for s in SCOPE)]
+    from .C06 import dispatch_rule
+    dispatch_rule(ctx, 'C07', ('pony/orm/dbapiprovider.py', 'pony/orm/dbproviders/', 'pony/converting.py', 'pony/orm/ormtypes.py'))
     # ---------------------------------------------------------------- MOD
     n = 0
     for m in mods:
@@ -118,6 +120,32 @@ def run(ctx):
                '' if not bad else '`%s` formats the year with %%Y: glibc does not zero-pad years below 1000, the stored text is then not parsed back by the '
                'reader (the value comes back as str) and sorts wrongly as text' % norm(bad[0]), node=bad[0] if bad else None, expected='isoformat()', nontrivial=bool(bad))
 
+    # ---------------------------------------------------------------- PARAM
+    # "parameters use the same conversion as stored values": a converter made for a query parameter (get_converter_by_py_type: no attribute) never
+    # ran init(kwargs), so every option that init() sets (precision, exp, ...) is None / absent for it.  A write-side conversion that consults such
+    # an option spells the same value differently for a parameter and for a stored attribute.
+    PARAM_EXCEPTIONS = {('SQLiteDecimalConverter', 'exp'): 'quantize() only changes the number of trailing zeros; the column has NUMERIC affinity, SQLite compares the numbers, not their text'}
+    npar = 0
+    for f in targets:
+        if f.cls is None: continue
+        fields = set()
+        for c in repo.mro(f.cls):
+            m = c.methods.get('init')
+            if m is not None:
+                for s_ in ast.walk(m.node):
+                    if isinstance(s_, ast.Assign):
+                        fields |= {t.attr for t in s_.targets if isinstance(t, ast.Attribute) and dotted(t.value) == m.recv}
+        npar += 1
+        reads = sorted({a.attr for a in ast.walk(f.node) if isinstance(a, ast.Attribute) and dotted(a.value) == f.recv and a.attr in fields})
+        bad = []
+        for r_ in reads:
+            if (f.cls.name, r_) in PARAM_EXCEPTIONS: ctx.exception('C07-PARAM', '%s.%s' % (f.cls.name, r_), PARAM_EXCEPTIONS[(f.cls.name, r_)])
+            else: bad.append(r_)
+        ctx.ob('C07-PARAM.write-side-conversion-ignores-per-attribute-options', f, f.node, not bad,
+               '' if not bad else '%s.%s consults %s, an option that only a converter created for an attribute has (init() sets it; for a query parameter it is None): the same '
+               'value is written differently as a parameter and as a stored attribute, so `attr == parameter` misses the row that holds the value'
+               % (f.cls.name, f.name, ', '.join('converter.' + b for b in bad)))
+    ctx.floor('C07-PARAM', npar, 12, 'write-side conversion methods')
     # ---------------------------------------------------------------- NULLMAP
     nnm = 0
     for f in repo.rule_funcs():
@@ -198,6 +226,7 @@ def run(ctx):
 
 
 MUTANTS = [
+    dict(id='C07-param1', file='pony/orm/dbproviders/sqlite.py', fn='SQLiteTimeConverter.py2sql', old="        return val.isoformat()", new="        return val.isoformat(timespec='auto' if converter.precision else 'seconds')", expect='C07-PARAM'),
     dict(id='C07-dec1', file='pony/orm/dbproviders/sqlite.py', fn='SQLiteDecimalConverter.sql2py', old="        try: val = Decimal(str(val))", new="        try: val = Decimal(val)", expect='C07-DECFLOAT'),
     dict(id='C07-dec2', file='pony/orm/dbproviders/sqlite.py', fn='SQLiteDecimalConverter.sql2py', old="        try: val = Decimal(str(val))", new="        try: val = Decimal(repr(val))", expect='C07-DECFLOAT', benign=True),
     dict(id='C07-n1', file='pony/orm/dbproviders/sqlite.py', fn='SQLiteArrayConverter.dbval2val', old="        if obj is None:\n            return items\n", new="        if obj is None:\n            return items\n        if not items and converter.attr.nullable:\n            return None\n", expect='C07-NULLMAP'),
